@@ -20,21 +20,18 @@ RULE = ('structured generators per model path (constant rate; no reversal; rever
         'accumulator given/clear), an exhaustive small box, and random cases; a case is non-trivial when it is inside '
         'the property domain and not one of the (0,0,0) requests; distinct by input tuple')
 TRUSTED = ['translator/pynum2lean.py and Rounding.ieee (validated by this correspondence run: Gen(ieee) = CPython/mpmath on every case)',
-           'hand-written exact integer model C03.calculate_lm tied to the source by correspondence (model = Gen(ieee) = implementation on every case)',
+           'exact integer model C03.calculate_lm tied to the regenerated source by the proved bridge C03_bridge (under Contract R) and, independently, by correspondence (model = Gen(ieee) = implementation on every case)',
            'EBB firmware behaviour = the recurrence of Model/Firmware.lean (taken from the property statement)',
            'modelled not verified: mpmath round-to-nearest arithmetic and sqrt, binary64 division in t_rev']
 ASSUMPTIONS = ['domain ValidLM: |steps| <= 2^31, start accumulator in [0,2^31) (or "clear"), the budget is reached, '
                'every per-tick |rate| <= 2^31-1 up to the first tick',
-               'theorems about the branch structure are about the hand-written model C03.calculate_lm (repaired algorithm); '
-               'C03_degenerate and C03_alias are about the generated definitions']
-STAGED = [
-    'numeric bridge (DESIGN C03 layer 5, stretch): Contract R -> ValidLM -> Gen.calculate_lm R ... = C03.calculate_lm ... is NOT proved; '
-    'C03_model, C03_acc_range, C03_feeds_lt are theorems about the hand-written exact integer model, and the claim for the generated/'
-    'real code rests on the correspondence run (implementation = Gen(ieee) = model on every generated in-domain input)',
-    'proved about the generated definitions directly: C03_degenerate, C03_legacy_mirror, C03_alias',
-    'ValidLM in the theorems does not need |steps| <= 2^31 (the model theorem holds for any positive budget); the harness '
-    'still restricts generated budgets to |steps| <= 2^31',
-]
+               'C03_model and corollaries are about the exact integer model; C03_bridge/C03_main transfer them to the generated '
+               'definitions under the rounding contract `Contract R` inside the 32-bit magnitude envelope BridgeDom',
+               'envelope |rate|, |accel| <= 2^32 (the LM command fields are 32-bit; same envelope as C01): outside it - possible in '
+               'the literal domain only for 1-tick moves with a huge odd acceleration, e.g. accel = 2^54+3 - the code computes '
+               'int(accel/2) in binary64 and is not exact; such inputs are not generated and not claimed']
+STAGED = []   # nothing staged: the numeric bridge (C03_bridge / C03_main / C03_main_moveTimeLM) is proved for every branch
+# and the full rounding contract is proved for the concrete instance (C03_contract_ieee : Contract Rounding.ieee).
 
 P = 2 ** 31
 BF_CAP = 4000        # brute-force simulation on every case whose first tick is at most this
